@@ -222,6 +222,40 @@ func ruleW6(c *Ctx) {
 	c.check(patIn(s, "@p.Name.Len == 6") && patIn(s, `bytescase.CmpEq(@n, []byte("branch"))`), "W6", "branch-name", fd.Pos(), "the branch parameter is found by length 6 and case-insensitive name")
 	c.check(patIn(s, `bytescase.CmpEq(@v[:len(@x)], []byte(@x))`) && patIn(s, "len(@v) > len(@x)"), "W6", "magic-prefix", fd.Pos(), "the RFC 3261 magic prefix is skipped only when the value is longer than it")
 	ruleGFor(c, "W6", map[string]bool{"GetViaBrSig": true})
+	// the branch test is reached with every completion verdict of the parameter parser (0 = ended by the
+	// comma terminator, more-values = another parameter follows, end-of-header = input ended)
+	if fn := c.SFuncs["GetViaBrSig"]; fn != nil {
+		e := newErrAnalysis(c.Prog)
+		var errv ssa.Value
+		var test *ssa.BasicBlock
+		for _, b := range fn.Blocks {
+			for _, ins := range b.Instrs {
+				if call, ok := ins.(*ssa.Call); ok && call.Call.StaticCallee() != nil && call.Call.StaticCallee().Name() == "ParseTokenParam" {
+					for _, r := range *call.Referrers() {
+						if ex, ok := r.(*ssa.Extract); ok && ex.Index == 1 {
+							errv = ex
+						}
+					}
+				}
+				if bo, ok := ins.(*ssa.BinOp); ok && bo.Op == token.EQL {
+					if k, isC := constIntOf(bo.Y); isC && k == 6 {
+						if u, ok := bo.X.(*ssa.UnOp); ok && strings.HasSuffix(typedPath(u.X), "Name.Len") {
+							test = b
+						}
+					}
+				}
+			}
+		}
+		okAll := false
+		got := VSet(0)
+		if errv != nil && test != nil {
+			got = e.at(errv, test)
+			mv, _ := c.namedConstInt("ErrHdrMoreValues")
+			eoh, _ := c.namedConstInt("ErrHdrEOH")
+			okAll = got.has(0) && got.has(mv) && got.has(eoh)
+		}
+		c.check(okAll, "W6", "branch-test-reached", fd.Pos(), "the branch-name test is reached with every completion verdict of ParseTokenParam: ok (comma-terminated), more-values, end-of-header (reached with "+e.setName("ErrorHdr", got)+")")
+	}
 }
 
 func init() {
